@@ -9,6 +9,7 @@
 -/
 import Nlmodel.Proofs.Lemmas.EmitSize
 import Nlmodel.Model.Pipeline
+import Nlmodel.Proofs.Lemmas.SimCtlProg
 namespace Nl
 namespace C11
 open Spec
@@ -117,6 +118,43 @@ theorem C11_loop_iterates (f : Nat) (c : RExpr) (b : RBlock) (acc v : SVal) (st 
     (hc : evalE f c st = .val (.bool true) st1) (hb : evalBV f b { st1 with last := acc } = .val v st2) :
     evalLoop (f + 1) c b acc st = evalLoop f c b v st2 := by
   simp [evalLoop, hc, hb]
+
+/-! ### machine level (stage 3 of the simulation, `Proofs/Lemmas/SimCtl*`) -/
+
+/-- NO RESIDUE, on the machine: for an expression of the stage-3 fragment (control flow over global
+    scalar variables, `stop`/`volgende` only where no operand is pending), started anywhere, on any
+    stack `stk`: if the semantics gives a value, the machine reaches the END of the expression's
+    code (`pos + sizeE e`) with the stack `stk.push v` — the value and nothing else; if it gives
+    `stop` (`volgende`), the machine is at the innermost loop's exit (head) with `stk.push null`.
+    Instance of `Sim.pall` for expressions; `als` and `zolang` are expressions. -/
+theorem C11_no_residue (f : Nat) (Γ : Sim.Gam) (ab : Bool) (e : RExpr) (hx : Sim.XE Γ ab e) (hok : Sim.GamOK Γ)
+    (st : SState) (pos : Nat) (lp : LoopCtx) (cs : List Const) (C : Code) (s0 : VM) (stk g : Array Value) (l : Value)
+    (hcode : Sim.CodeAt C pos (emitE e pos lp cs).1) (hpool : Sim.PoolOK s0.cvals (emitE e pos lp cs).2)
+    (hrel : Sim.Rel Γ st g) (hlast : Sim.LastRel st l) :
+    Sim.GoalV Γ ab lp C s0 pos stk g l (pos + sizeE e) stk st (evalE f e st) :=
+  (Sim.pall f).e Γ ab e hx hok st pos lp cs C s0 stk g l hcode hpool hrel hlast
+
+/-- the resolved tree of `(als nee { 1 }) == zolang ja { 1 + als ja { stop } }` -/
+def k3prog : RBlock :=
+  .cons (.expr (.infix (.ifE (.bool false) (.cons (.expr (.int 1)) .nil) .none) .eq
+    (.whileE (.bool true) (.cons (.expr (.infix (.int 1) .add (.ifE (.bool true) (.cons .brk .nil) .none))) .nil)))) .nil
+
+def specLast (r : Res Unit) : Option SVal := match r with | .val () st => some st.last | _ => none
+def isBoolTrue : Option SVal → Bool | some (.bool true) => true | _ => false
+def machineError (p : RBlock) (n : Nat) : Option Err :=
+  match compileR p with
+  | .ok bc => match runSteps bc.code n (VM.start {} bc) with
+    | .error e _ => some e
+    | _ => none
+  | .error _ => none
+
+/-- KNOWN FINDING K3, as a kernel-checked witness: outside the fragment — `stop` evaluated while the
+    operand `1` is pending, in a loop that is itself the RIGHT operand of `==` — the definitional
+    semantics gives `ja` (null == null) but the machine compares the residue `1` with null and
+    fails with a type error.  The real implementation does the same (C11's K3 probes). -/
+theorem C11_K3_witness :
+    isBoolTrue (specLast (evalB 20 k3prog {})) = true ∧ machineError k3prog 13 = some .type := by
+  constructor <;> decide
 
 end C11
 end Nl
